@@ -245,7 +245,8 @@ Definition key_le (x y : cand) : bool :=
 
 Definition nconns (l : list cand) : Z := zsum (map (fun x : cand => zlen (p_conns (snd x))) l).
 
-(* the selection loop shared by getConnsToClose and getConnsToCloseEmergency:
+(* the selection loop of getConnsToCloseEmergency (and of getConnsToClose before
+   the grace re-check, see select_g below):
    selected connections, temporary entries met while target > 0, final target *)
 Fixpoint select (l : list cand) (target : Z) : list (nat * nat) * list nat * Z :=
   match l with
@@ -256,6 +257,23 @@ Fixpoint select (l : list cand) (target : Z) : list (nat * nat) * list nat * Z :
         let '(sel, pr, t) := select r target in (sel, p :: pr, t)
       else
         let '(sel, pr, t) := select r (target - zlen (p_conns pi)) in
+        (map (pair p) (p_conns pi) ++ sel, pr, t)
+  end.
+
+(* the selection loop of getConnsToClose since "fix: connmgr: re-check the grace
+   period in the trim's selection loop": an entry whose firstSeen is after
+   gracePeriodStart when the loop reaches it is skipped (its first Connected
+   arrived after the snapshot) *)
+Fixpoint select_g (gs : Z) (l : list cand) (target : Z) : list (nat * nat) * list nat * Z :=
+  match l with
+  | [] => ([], [], target)
+  | (p, pi) :: r =>
+      if target <=? 0 then ([], [], target)
+      else if gs <? p_first pi then select_g gs r target
+      else if is_nil (p_conns pi) && p_temp pi then
+        let '(sel, pr, t) := select_g gs r target in (sel, p :: pr, t)
+      else
+        let '(sel, pr, t) := select_g gs r (target - zlen (p_conns pi)) in
         (map (pair p) (p_conns pi) ++ sel, pr, t)
   end.
 
@@ -275,7 +293,7 @@ Section WithSort.
       let ncand := nconns cands in
       if ncand <? c_low cfg then (s, [])
       else
-        let '(sel, pr, _) := select (sort cands) (ncand - c_low cfg) in
+        let '(sel, pr, _) := select_g (now s - c_grace cfg) (sort cands) (ncand - c_low cfg) in
         (fold_left (fun s' p => set_peer s' p nopeer) pr s, sel).
 
   (* ForceTrim + getConnsToCloseEmergency (no state change; the second pass
